@@ -407,8 +407,7 @@ fn consume_expr<'i>(
                         let mut pairs = pair.into_inner();
                         pairs.next().unwrap(); // opening_paren
                         let contents_pair = pairs.next().unwrap();
-                        let string =
-                            unescape(contents_pair.as_str()).expect("incorrect string literal");
+                        let string = unescape_literal(&contents_pair)?;
                         ParserNode {
                             expr: ParserExpr::PushLiteral(string[1..string.len() - 1].to_owned()),
                             span: contents_pair.clone().as_span(),
@@ -460,14 +459,14 @@ fn consume_expr<'i>(
                         span: pair.clone().as_span(),
                     },
                     Rule::string => {
-                        let string = unescape(pair.as_str()).expect("incorrect string literal");
+                        let string = unescape_literal(&pair)?;
                         ParserNode {
                             expr: ParserExpr::Str(string[1..string.len() - 1].to_owned()),
                             span: pair.clone().as_span(),
                         }
                     }
                     Rule::insensitive_string => {
-                        let string = unescape(pair.as_str()).expect("incorrect string literal");
+                        let string = unescape_literal(&pair)?;
                         ParserNode {
                             expr: ParserExpr::Insens(string[2..string.len() - 1].to_owned()),
                             span: pair.clone().as_span(),
@@ -476,11 +475,11 @@ fn consume_expr<'i>(
                     Rule::range => {
                         let mut pairs = pair.into_inner();
                         let pair = pairs.next().unwrap();
-                        let start = unescape(pair.as_str()).expect("incorrect char literal");
+                        let start = unescape_literal(&pair)?;
                         let start_pos = pair.clone().as_span().start_pos();
                         pairs.next();
                         let pair = pairs.next().unwrap();
-                        let end = unescape(pair.as_str()).expect("incorrect char literal");
+                        let end = unescape_literal(&pair)?;
                         let end_pos = pair.clone().as_span().end_pos();
 
                         ParserNode {
@@ -728,6 +727,19 @@ fn consume_expr<'i>(
     };
 
     pratt.map_primary(term).map_infix(infix).parse(pairs)
+}
+
+/// `unescape` that reports an escape naming no `char` (e.g. `\u{D800}`, `\u{110000}`) as an
+/// error located at the literal instead of panicking.
+fn unescape_literal(pair: &Pair<'_, Rule>) -> Result<String, Vec<Error<Rule>>> {
+    unescape(pair.as_str()).ok_or_else(|| {
+        vec![Error::new_from_span(
+            ErrorVariant::CustomError {
+                message: "invalid escape sequence in literal".to_owned(),
+            },
+            pair.as_span(),
+        )]
+    })
 }
 
 fn peek_index_overflow(pair: &Pair<'_, Rule>) -> Vec<Error<Rule>> {
